@@ -58,6 +58,8 @@ def run(chk, repo):
     program(chk, repo)
     dispatcher(chk, repo)
     writers(chk, repo)
+    from . import c11
+    c11.writers_registered(chk, repo, "R21.6")
 
 
 def typestate(chk, repo):
@@ -205,9 +207,30 @@ def program(chk, repo):
     exits = [e for e in ev if e.kind == "exit"]
     need(len(act) == 1 and len(devs) == 1, f"{sym}: activate / device "
                                            f"programs not found")
-    g = "self.packetSize >= self.packet.size + Packet.ETHERNET_HEADER"
-    ok = act[0].guard_text() == [g] and devs[0].guard_text() == [g] and \
-        act[0].node.lineno < devs[0].node.lineno
+    # the guard: packetSize >= packet.size + <the Ethernet header constant,
+    # read through whichever name>; the bound is folded
+    def whole_frame(gt):
+        if len(gt) != 1:
+            return False
+        try:
+            t = ast.parse(gt[0], mode="eval").body
+        except SyntaxError:
+            return False
+        b = match("self.packetSize >= self.packet.size + $h", t) or match(
+            "self.packetSize >= $h + self.packet.size", t)
+        if b is None:
+            return False
+        h = b["h"]
+        if isinstance(h, ast.Attribute) and h.attr == "ETHERNET_HEADER":
+            try:
+                return Evaluator(repo, f._module).class_attr(
+                    repo.cls("ebpfcat.ethercat.Packet"),
+                    "ETHERNET_HEADER") == 14
+            except Unknown:
+                return False
+        return int_const(h) == 14
+    ok = whole_frame(act[0].guard_text()) and act[0].guard_text() == \
+        devs[0].guard_text() and act[0].node.lineno < devs[0].node.lineno
     chk.ob("R21.3", sym, "activate, then the device programs, inside one "
            "packetSize guard covering the whole frame", ok, f,
            f"guards {act[0].guard_text()} / {devs[0].guard_text()}")
